@@ -62,5 +62,6 @@ def main(tier, seed):
 
 
 def replay(rep_json):
-    print("replay: witness records model, configuration and rewritten model; re-run ./check C13")
-    return 2
+    from framework.props import _modelprop
+
+    return _modelprop.replay_job("C13", rep_json, "framework.props.metarun", "replay_meta")
